@@ -169,13 +169,13 @@ def gen_values(r):
         if r.random() < 0.15:
             vals.append(None)
         elif kind == 'int':
-            vals.append(r.randint(-50, 1000))
+            vals.append(r.choice([0, 0, r.randint(-50, 1000), r.randint(-50, 1000)]))
         elif kind == 'smallint':
             vals.append(r.randint(0, 3))
         elif kind == 'float':
-            vals.append(r.choice([0.5, 0.6, 1.25, 2.5, -3.75, 100.125, 0.1, 7.0]) * r.choice([1, 1, 3, 0.5]))
+            vals.append(r.choice([0.5, 0.6, 1.25, 2.5, -3.75, 100.125, 0.1, 7.0, 0.0, -0.5]) * r.choice([1, 1, 3, 0.5]))
         else:
-            vals.append(r.choice(['apple', 'banana', 'cherry', 'date', 'egg']))
+            vals.append(r.choice(['apple', 'banana', 'cherry', 'date', 'egg', '', '', '0', ' ']))
     if all(v is None for v in vals):
         vals.append(3 if kind != 'str' else 'x')
     return kind, vals
